@@ -366,12 +366,23 @@ def rule_bytes(ctx, f):
             return (ar[0], last[-1][1]) if last else None
         order = None
         for i, j, st in F.stmts(hb):
-            if st[0] == "assign" and st[2][0] == "binop" and st[2][1].startswith("Shl") and F.const_int(st[2][3]) == 4:
+            # `high << 4` or `high * 16`
+            if st[0] == "assign" and st[2][0] == "binop" and ((st[2][1].startswith("Shl") and F.const_int(st[2][3]) == 4) or
+                                                              (st[2][1].startswith("Mul") and 16 in (F.const_int(st[2][3]), F.const_int(st[2][2])))):
+                if st[2][1].startswith("Mul") and F.const_int(st[2][2]) == 16:
+                    st = [st[0], st[1], [st[2][0], st[2][1], st[2][3], st[2][2]]] + list(st[3:])
                 hi = digit_index(st[2][2])
                 lo = None
+                # locals that hold the shifted value (a checked multiplication yields a pair whose first field is copied out)
+                holders = {st[1][0]}
+                for _ in range(3):
+                    for i3, j3, st3 in F.stmts(hb):
+                        if st3[0] == "assign" and len(st3[1]) == 1 and st3[2][0] == "use" and F.op_place(st3[2][1]) and F.op_place(st3[2][1])[0] in holders:
+                            holders.add(st3[1][0])
                 for i2, j2, st2 in F.stmts(hb):
-                    if st2[0] == "assign" and st2[2][0] == "binop" and st2[2][1] in ("BitOr", "Add", "BitXor") and st[1][0] in (F.op_local(st2[2][2]), F.op_local(st2[2][3])):
-                        other = st2[2][3] if F.op_local(st2[2][2]) == st[1][0] else st2[2][2]
+                    if st2[0] == "assign" and st2[2][0] == "binop" and st2[2][1].replace("WithOverflow", "") in ("BitOr", "Add", "BitXor") and \
+                            (F.op_local(st2[2][2]) in holders or F.op_local(st2[2][3]) in holders):
+                        other = st2[2][3] if F.op_local(st2[2][2]) in holders else st2[2][2]
                         lo = digit_index(other)
                 order = (hi, lo)
         ctx.check(order is not None and order[0] is not None and order[1] is not None and order[0][0] == order[1][0] and (order[0][1], order[1][1]) == (0, 1),
